@@ -369,3 +369,19 @@ pub fn job_name(objs: &[Obj], j: &Job) -> String {
         Job::MetaRead { variant } => format!("meta-r {variant}"),
     }
 }
+
+/// rough cost of a job, used only to order the work
+pub fn job_weight(objs: &[Obj], j: &Job) -> u64 {
+    match j {
+        Job::Write { obj, ti, .. } | Job::Read { obj, ti, .. } => {
+            let size: u64 = match objs[*obj].name.as_str() {
+                "big" => 50,
+                "nested" => 3,
+                n if n.starts_with("encapsulated") => 3,
+                _ => 1,
+            };
+            size * if *ti == 3 { 10 } else { 1 }
+        }
+        _ => 1,
+    }
+}
